@@ -193,7 +193,9 @@ func c16Stores(c *Ctx, a *sketchAnchors) {
 					return true
 				})
 				if m.Op == "field" && m.Args[0].isParam(0) && fromRange &&
-					isTimesW(v, func(t *Term) bool { return t.Op == "lookup" && t.Args[0].Key() == m.Key() && t.Args[1].Key() == k.Key() }, isW) {
+					isTimesW(v, func(t *Term) bool {
+						return t.Op == "lookup" && t.Args[0].Key() == m.Key() && t.Args[1].Key() == k.Key()
+					}, isW) {
 					ok = true
 				}
 			}
